@@ -294,7 +294,7 @@ def run(pid, tier, seed, args, t0):
     # A conformance failure tagged T-… concerns a TRUSTED contract on a function of the repository (not a library):
     # the real code contradicts a contract this property's proof relies on, with a concrete input - a violation to
     # report, not a checker error.  It counts for the properties whose functions use that contract.
-    T_USERS = {"T-juniper": ("juniper_secrets:", ":_anonymize_value"), "T-default-regexes": ("FileAnonymizer.__init__",)}
+    T_USERS = {"T-juniper": ("juniper_secrets:", ":_anonymize_value"), "T-default-regexes": ("FileAnonymizer.__init__", ":replace_matching_item")}
     t_fail = [f for f in conformance.get("failures", []) if str(f.get("tag", "")).startswith("T-")]
     conformance["failures"] = [f for f in conformance.get("failures", []) if f not in t_fail]
     for f in t_fail:
